@@ -24,7 +24,7 @@ func init() {
 	register(&Rule{Name: "TREE.WALK", Props: []string{"C04", "C06", "C08"}, Floor: 4,
 		Doc: "the deep copier, the choice fixer and the error collectors descend through every link field",
 		Run: ruleTreeWalk})
-	register(&Rule{Name: "DUP.COMPLETE", Props: []string{"C04", "C06", "C08"}, Floor: 3,
+	register(&Rule{Name: "DUP.COMPLETE", Props: []string{"C04", "C06", "C08", "C07", "C17"}, Floor: 3,
 		Doc: "the deep copy re-allocates every reference-kinded entry field that is mutated in place somewhere",
 		Run: ruleDupComplete})
 }
